@@ -46,8 +46,12 @@ class PickupManager:
 
     def apply(self):
         """Applies all pickup operations in the manager."""
-        for pickup in self.pickups:
-            pickup.apply()
+        # the source of a pickup may itself be the target of a pickup that was
+        # registered later: repeat, so that chains of pickups are resolved
+        # whatever their registration order
+        for _ in range(max(1, len(self.pickups))):
+            for pickup in self.pickups:
+                pickup.apply()
 
     def clear(self):
         """Clears all pickup operations in the manager."""
